@@ -596,3 +596,10 @@ Lemma ex_same_except :
                       src_cpu := 31; dest_x := 255; dest_y := 254; src_x := 1; src_y := 2; data := [9; 8; 7] |};
        cmd_rc := 65535; seq := 258; arg1 := Some 4294967295; arg2 := Some 66051; arg3 := None |}.
 Proof. unfold same_except, sdp_same_except, ex_scp. cbn. repeat split; auto. Qed.
+
+(* the port/core byte as it was computed before the repair (no int()): with the port a numpy.int8, the shift is
+   done in int8 and a port of 4..7 gives a negative "byte", which struct.pack refuses *)
+Lemma port_byte_int8_orig :
+  exists port cpu, 0 <= port < 8 /\ 0 <= cpu < 32
+                   /\ ~ byte (Z.lor (wrap_int8 (Z.shiftl (Z.land port 7) 5)) (Z.land cpu 31)).
+Proof. exists 4, 2. unfold byte. vm_compute. intuition discriminate. Qed.
